@@ -374,6 +374,11 @@ def run(ctx):
     from .c07 import rewind_reset
     rewind_reset(ctx, chk, R5)
 
+    from .common import option_forwarding
+    R6 = chk.rule('C10.R6', 'the compress option is forwarded unchanged by every wrapper down to the pack writer', 1)
+    nf = option_forwarding(ctx, chk, R6, ['compress', 'compress_mode'])
+    chk.require(nf >= 3, f'expected >= 3 forwarding sites of compress, found {nf}')
+
     return chk.finish(
         explanation=('Static checks of the compression logic: exhaustive and constant mode table of should_compress, def-use agreement between the flag stored in the index '
                      'row and the value that selects the compressing branch (decided per object on every path of the repack loop), a position-restore typestate on '
